@@ -76,6 +76,29 @@ def chunking(ctx, prog, ev):
         adv = [x for x in fr.stmts(ast.AugAssign) if dotted(x.target) == "offset"]
         oka = len(adv) == 1 and isinstance(adv[0].op, ast.Add) and dotted(adv[0].value) == nm
         ctx.ob("C02-D1/DEP", oka, fr.site(s), "the offset advances by exactly the bytes read (no gap, no overlap)", func=q)
+    # start, hand-over and loop condition of the reader
+    init = [x for x in fr.stmts(ast.Assign) if any(dotted(t) == "offset" for t in x.targets)]
+    ctx.ob("C02-D1/DEP", len(init) == 1 and is_const(init[0].value, 0) and not R.atomic_facts_at(fr, init[0])[0], fr.site(), "reading starts at offset 0", func=q, key=f"C02-D1/DEP|{q}|start")
+    ln = [x for x in fr.stmts(ast.Assign) if any(dotted(t) == "length" for t in x.targets)]
+    ok = len(ln) == 1 and norm_text(ln[0].value) in (f"int(os.stat({fr.fi.params()[0]}).st_size)", f"os.stat({fr.fi.params()[0]}).st_size", f"os.path.getsize({fr.fi.params()[0]})")
+    ctx.ob("C02-D1/DEP", ok, fr.site(), "the length is the file's size", func=q)
+    ys = list(fr.local_nodes(ast.Yield))
+    rdc = [c for c in fr.calls(name="run_in_executor") if any(dotted(a) == "read_bytes" for a in c.args)]
+    ok = len(ys) == 1 and len(rdc) == 1 and fr.expanded_text(ys[0].value, keep=tuple(n.id for n in ast.walk(rdc[0]) if isinstance(n, ast.Name))) == "await " + unparse(rdc[0])
+    ctx.ob("C02-D1/DEP", ok, fr.site(), "every chunk read is yielded, unmodified", func=q, key=f"C02-D1/DEP|{q}|yield")
+    for y in ys:
+        have, _F = R.atomic_facts_at(fr, y)
+        extra = {k for k in have if k not in {("(length) <= (offset)", False), ("bytes_to_read", True)}}
+        ctx.ob("C02-D1/GATE", not extra, fr.site(y), "…under no condition other than `offset < length` (and a non-zero chunk size)", detail=R.fmt_missing(sorted(extra)), func=q, key=f"C02-D1/GATE|{q}|yield-always")
+        adv = [x for x in fr.stmts(ast.AugAssign) if dotted(x.target) == "offset"]
+        ok = len(adv) == 1 and fr.always_reaches(y, lambda n: n is adv[0].value or n is adv[0].target) is None and R.stmt_of(y)._parent is adv[0]._parent
+        ctx.ob("C02-D1/ORDER", ok, fr.site(y), "the offset advances after every yielded chunk, in the same loop body", func=q)
+    wl = fr.stmts(ast.While)
+    ok = len(wl) == 1 and norm_text(wl[0].test) in ("offset < length", "length > offset") and not wl[0].orelse
+    ctx.ob("C02-D1/GATE", ok, fr.site(), "the reader continues while offset < length (up to the last byte)", func=q, key=f"C02-D1/GATE|{q}|loop")
+    brk = fr.stmts(ast.Break)
+    for b in brk:
+        R.exact_gate(ctx, "C02-D1/GATE", fr, b, "offset < length and not bytes_to_read", "the only early exit is a zero-sized chunk", key=f"C02-D1/GATE|{q}|break")
     # the conditional form (`x if c else y`) of the chunk size is equally fine only if both arms are bounded: not recognised -> floor reports it
     rb = ctx.fa(f"{D}.read_bytes")
     t = unparse(rb.node)
@@ -90,6 +113,28 @@ def chunking(ctx, prog, ev):
         c = [x for x in cs.calls(name="create_from_unencrypted")]
         okc = len(c) == 1 and [unparse(a) for a in c[0].args[2:6]] == ["key", "next(iv_generator)", dotted(loops[0].target), "blob_num"]
         ctx.ob("C02-D1/DEP", okc, cs.site(), "each chunk becomes one blob with the stream key, a fresh IV and its running number", func=cq)
+        okc = len(c) == 1 and [unparse(a) for a in c[0].args[:2]] == cs.fi.params()[1:3] and isinstance(c[0]._parent, ast.Await) and R.stmt_of(c[0])._parent is loops[0]
+        ctx.ob("C02-D1/DEP", okc, cs.site(), "…awaited, in the stream's blob directory, inside the loop", func=cq)
+        ap = [x for x in cs.calls(dotted_name="blobs.append") if R.stmt_of(x)._parent is loops[0]]
+        st = R.stmt_of(c[0]) if c else None
+        okc = len(ap) == 1 and isinstance(st, ast.Assign) and len(ap[0].args) == 1 and dotted(ap[0].args[0]) == dotted(st.targets[0]) and not R.atomic_facts_at(cs, ap[0])[0]
+        ctx.ob("C02-D1/DEP", okc, cs.site(), "every blob's info is appended to the descriptor's blob list, in order, unconditionally", func=cq, key=f"C02-D1/DEP|{cq}|append")
+        mk = [x for x in cs.calls(name="cls")]
+        okc = len(mk) == 1 and [unparse(a) for a in mk[0].args] == [cs.fi.params()[1], cs.fi.params()[2], "file_name", "binascii.hexlify(key).decode()", "suggested_file_name", "blobs"]
+        ctx.ob("C02-D1/DEP", okc, cs.site(), "the descriptor is built from the file's base name, the hex of the very key used for encryption, the sanitised name and that blob list", func=cq,
+               key=f"C02-D1/DEP|{cq}|descriptor")
+        r = R.single_return_value(cs)
+        st2 = R.stmt_of(mk[0]) if mk else None
+        okc = r is not None and isinstance(st2, ast.Assign) and dotted(r.value) == dotted(st2.targets[0]) and \
+            f"{dotted(r.value)}.sd_hash = sd_blob.blob_hash" in [norm_text(x) for x in cs.stmts(ast.Assign)] and \
+            any(norm_text(x.value).startswith(f"await {dotted(r.value)}.make_sd_blob(") and dotted(x.targets[0]) == "sd_blob" for x in cs.stmts(ast.Assign))
+        ctx.ob("C02-D1/DEP", okc, cs.site(), "that descriptor is returned, with sd_hash = hash of the sd blob made from it", func=cq, key=f"C02-D1/DEP|{cq}|return")
+        ks = [x for x in cs.stmts(ast.Assign) if any(dotted(t) == "key" for t in x.targets)]
+        okc = len(ks) == 1 and norm_text(ks[0].value) == "key or os.urandom(AES.block_size // 8)"
+        ctx.ob("C02-D1/DEP", okc, cs.site(), "the key is the caller's or 16 fresh random bytes (AES.block_size // 8)", func=cq)
+        ivs = [x for x in cs.stmts(ast.Assign) if any(dotted(t) == "iv_generator" for t in x.targets)]
+        okc = len(ivs) == 1 and norm_text(ivs[0].value) == "iv_generator or random_iv_generator()"
+        ctx.ob("C02-D1/DEP", okc, cs.site(), "IVs come from the caller's generator or random_iv_generator()", func=cq)
         bn = [s for s in loops[0].body if isinstance(s, ast.AugAssign) and dotted(s.target) == "blob_num" and is_const(s.value, 1)]
         init = [s for s in cs.stmts(ast.Assign) if any(dotted(t) == "blob_num" for t in s.targets) and unparse(s.value) == "-1"]
         ctx.ob("C02-D1/DEP", len(bn) == 1 and len(init) == 1 and loops[0].body[0] is bn[0], cs.site(), "blob numbers start at 0 and increase by one per blob", func=cq)
@@ -199,6 +244,10 @@ def commitments(ctx, prog):
             new = ms.guarded(s, "not old_sort")[0]
             okd = okd and unparse(s.value) == ("self.as_json()" if new else "self.old_sort_json()")
     ctx.ob("C02-D3/SYM", okd, ms.site(), "the bytes written are as_json() / old_sort_json() under the same polarity", func=q, key=f"C02-D3/SYM|{q}|polarity")
+    for s_ in d:
+        new = unparse(s_.value) == "self.as_json()"
+        R.exact_gate(ctx, "C02-D3/SYM", ms, s_, "not old_sort" if new else "old_sort", "the serialiser is chosen by old_sort alone — the same test that chose the hash",
+                     key=f"C02-D3/SYM|{q}|polarity-exact|{'new' if new else 'old'}")
     for qn, ser in ((f"{SD}.calculate_sd_hash", "self.as_json()"), (f"{SD}.calculate_old_sort_sd_hash", "self.old_sort_json()")):
         fa = ctx.fa(qn)
         t = unparse(fa.node)
@@ -207,6 +256,26 @@ def commitments(ctx, prog):
     wr = [c for c in ms.calls(name="write")]
     ok = len(wr) == 1 and dotted(wr[0].args[0]) == "sd_data" and "BlobFile(self.loop, sd_hash, len(sd_data)," in unparse(ms.node)
     ctx.ob("C02-D3/DEP", ok, ms.site(), "the sd blob is created under that hash and length and receives those bytes (re-verified by the writer)", func=q)
+    for c in wr:
+        R.exact_gate(ctx, "C02-D3/GATE", ms, c, "not sd_blob.get_is_verified()", "the descriptor bytes are written whenever the sd blob is not already verified",
+                     ignore=["old_sort", "not old_sort", "blob_file_obj", "not blob_file_obj"], key=f"C02-D3/GATE|{q}|write-exact")
+        ok = dotted(c.func.value) == "writer" and [norm_text(x.value) for x in ms.stmts(ast.Assign) if any(dotted(tg) == "writer" for tg in x.targets)] == ["sd_blob.get_blob_writer()"]
+        ctx.ob("C02-D3/DEP", ok, ms.site(c), "…through the sd blob's own verifying writer", func=q)
+    r = R.single_return_value(ms)
+    wt = [c for c in ms.calls(dotted_name="sd_blob.verified.wait")]
+    ok = r is not None and dotted(r.value) == "sd_blob" and len(wt) == 1 and isinstance(wt[0]._parent, ast.Await) and not R.atomic_facts_at(ms, wt[0])[0] - \
+        {("old_sort", True), ("old_sort", False), ("blob_file_obj", True), ("blob_file_obj", False), ("sd_blob.get_is_verified()", True), ("sd_blob.get_is_verified()", False)} and \
+        ms.must_precede(r, lambda n: n is wt[0]) is None
+    ctx.ob("C02-D3/ORDER", ok, ms.site(), "make_sd_blob returns that blob only after it verified", func=q)
+    sb = [x for x in ms.stmts(ast.Assign) if any(dotted(tg) == "sd_blob" for tg in x.targets)]
+    ok = len(sb) == 1 and isinstance(sb[0].value, ast.BoolOp) and isinstance(sb[0].value.op, ast.Or) and dotted(sb[0].value.values[0]) == ms.fi.params()[1] and \
+        norm_text(sb[0].value.values[1]).startswith("BlobFile(self.loop, sd_hash, len(sd_data), ")
+    ctx.ob("C02-D3/DEP", ok, ms.site(), "the sd blob is the caller's blob object or a new BlobFile named by the sd hash", func=q)
+    sl = [c for c in ms.calls(name="set_length")]
+    for c in sl:
+        ok = unparse(c) == f"{ms.fi.params()[1]}.set_length(len(sd_data))"
+        ctx.ob("C02-D3/DEP", ok, ms.site(c), "a caller-supplied blob gets the descriptor's length", func=q)
+        R.exact_gate(ctx, "C02-D3/GATE", ms, c, ms.fi.params()[1], "…always", ignore=["old_sort", "not old_sort"], key=f"C02-D3/GATE|{q}|set-length")
     # as_json content
     aj = ctx.fa(f"{SD}.as_json")
     t = unparse(aj.node)
@@ -242,6 +311,13 @@ def commitments(ctx, prog):
     if ups:
         ok = bh.guarded(ups[0], "length != 0")[0] and all(not bh.facts_at(c) - bh.facts_at(ups[1]) for c in ups[1:]) if len(ups) > 1 else False
         ctx.ob("C02-D3/GATE", bh.guarded(ups[0], f"{bd}['length'] != 0")[0], bh.site(ups[0]), "the hash is included for every non-terminator blob", func=bq)
+        R.exact_gate(ctx, "C02-D3/GATE", bh, ups[0], f"{bd}['length'] != 0", "…exactly then", key=f"C02-D3/GATE|{bq}|hash-exact")
+        for c in ups[1:]:
+            have, _F = R.atomic_facts_at(bh, c)
+            ctx.ob("C02-D3/GATE", not have, bh.site(c), "number, iv and length are always hashed", detail=R.fmt_missing(sorted(have)), func=bq)
+        hd = [x for x in bh.stmts(ast.Assign) if any(dotted(tg) == "blob_hash" for tg in x.targets) and not is_const(x.value, None)]
+        ok = len(hd) == 1 and unparse(hd[0].value) == f"{bd}['blob_hash']" and bh.guarded(hd[0], f"{bd}['length'] != 0")[0]
+        ctx.ob("C02-D3/DEP", ok, bh.site(), "the hash hashed is the dict's own blob_hash entry", func=bq)
     # recomputed from its inputs on every call: no module/class level memo involved
     memo = [n for n in walk_local_body(bh.node) if isinstance(n, ast.Name) and n.id not in bh.fi.params() and n.id.isupper()]
     glob = [n for n in walk_local_body(bh.node) if isinstance(n, (ast.Global, ast.Nonlocal))]
@@ -265,6 +341,14 @@ def commitments(ctx, prog):
     t = unparse(bi.node)
     ok = "'length': self.length" in t and "'blob_num': self.blob_num" in t and "'iv': self.iv" in t and "d['blob_hash'] = self.blob_hash" in t
     ctx.ob("C02-D3/DEP", ok, bi.site(), "a blob's dict carries its length, number, iv and hash", func=bi.fi.qualname)
+    hs = [x for x in bi.stmts(ast.Assign) if any(isinstance(tg, ast.Subscript) and is_const(tg.slice, "blob_hash") for tg in x.targets)]
+    for x in hs:
+        R.exact_gate(ctx, "C02-D3/GATE", bi, x, "self.blob_hash", "the hash entry is present exactly for blobs that have one (every data blob; not the terminator)",
+                     key="C02-D3/GATE|as_dict|hash-exact")
+    r = R.single_return_value(bi)
+    ds = [x for x in bi.stmts(ast.Assign) if r is not None and any(dotted(tg) == dotted(r.value) for tg in x.targets)]
+    ok = r is not None and len(ds) == 1 and isinstance(ds[0].value, ast.Dict) and len(hs) == 1 and dotted(hs[0].targets[0].value) == dotted(r.value)
+    ctx.ob("C02-D3/DEP", ok, bi.site(), "that dict is what as_dict returns", func=bi.fi.qualname)
 
 
 def load(ctx, prog, hier):
@@ -285,6 +369,13 @@ def load(ctx, prog, hier):
     ]
     for g, what, k in checks:
         R.gate(ctx, "C02-D4/GATE", fa, rets[0], g, f"a descriptor is returned only if {what}", key=f"C02-D4/GATE|{q}|{k}")
+    R.exact_gate(ctx, "C02-D4/GATE", fa, rets[0], " and ".join(g for g, _w, _k in checks), "…and under no further condition: every consistent descriptor loads",
+                 key=f"C02-D4/GATE|{q}|accept-exact")
+    for x in rz:
+        if fa.lexically_inside(x, lambda a: isinstance(a, ast.ExceptHandler)) is not None:
+            continue
+        R.only_terms(ctx, "C02-D4/GATE", fa, x, [g for g, _w, _k in checks], "a refusal depends on nothing but the five consistency tests",
+                     key=f"C02-D4/GATE|{q}|refusal-terms|{norm_text(x.exc)[:50]}")
     # each refusal raises (not logs)
     for x in rz:
         ctx.ob("C02-D4/GATE", isinstance(x.exc, ast.Call), fa.site(x), "a refusal raises InvalidStreamDescriptorError", func=q)
@@ -311,6 +402,12 @@ def load(ctx, prog, hier):
     rz2 = R.raise_kinds(fs)
     ok = any(fs.guarded(x, "not blob.is_readable()")[0] for x, k in rz2)
     ctx.ob("C02-D4/GATE", ok, fs.site(), "an unverified / missing sd blob is refused", func=fs.fi.qualname)
+    for x, k in rz2:
+        R.exact_gate(ctx, "C02-D4/GATE", fs, x, "not blob.is_readable()", "…exactly then", key=f"C02-D4/GATE|{fs.fi.qualname}|unreadable-exact")
+    for c in fs.calls(name="run_in_executor"):
+        R.exact_gate(ctx, "C02-D4/GATE", fs, c, "blob.is_readable()", "every readable sd blob is handed to the loader", key=f"C02-D4/GATE|{fs.fi.qualname}|load-exact")
+        ok = [unparse(a) for a in c.args[1:]] == ["cls._from_stream_descriptor_blob"] + fs.fi.params()[1:4]
+        ctx.ob("C02-D4/DEP", ok, fs.site(c), "…with this very blob", func=fs.fi.qualname)
 
 
 def filename(ctx, prog, ev):
@@ -425,6 +522,8 @@ def cipher(ctx, prog):
     rz = R.raise_kinds(d)
     ok = any(d.guarded(x, "len(data) != length")[0] for x, k in rz)
     ctx.ob("C02-D6/GATE", ok, d.site(), "decrypt refuses data whose length differs from the descriptor's", func=d.fi.qualname)
+    for x, k in rz:
+        R.exact_gate(ctx, "C02-D6/GATE", d, x, "len(data) != length", "…and refuses for no other reason", key="C02-D6/GATE|decrypt|refuse-exact")
     ab = ctx.fa(f"{BF}.AbstractBlob.decrypt")
     ok = "decrypt_blob_bytes(reader.read(), self.length, key, iv)" in unparse(ab.node)
     ctx.ob("C02-D6/DEP", ok, ab.site(), "a blob decrypts its own bytes with its own length", func=ab.fi.qualname)
